@@ -52,11 +52,12 @@ func isReturnBool(s ast.Stmt, want string) bool {
 
 // evalPredicate computes the set of GetTypeName() strings for which the
 // predicate returns true. Accepted statement forms:
-//   x := []string{"A", ...}
-//   for _, v := range x { if v == other.GetTypeName() { return true } }
-//   if other.GetTypeName() == "T" { return true }
-//   return <otherPredicate>(other)          (resolved through go/types)
-//   return false
+//
+//	x := []string{"A", ...}
+//	for _, v := range x { if v == other.GetTypeName() { return true } }
+//	if other.GetTypeName() == "T" { return true }
+//	return <otherPredicate>(other)          (resolved through go/types)
+//	return false
 func (pe *predEval) eval(p *packages.Package, fd *ast.FuncDecl) *predResult {
 	if r, ok := pe.memo[fd]; ok {
 		if r == nil {
